@@ -106,6 +106,17 @@ CLAIMED = {
    note="Pipeline schedules are sampled (seeded); quiescence = no enabled thread under the scheduler; timeouts never fire.",
    technique="TLA+ model checking (CapInv, LazyDemand action property) with counterexample replay + scheduler-driven pipeline runs judged by TLC",
    design="4/C13"),
+ "C11": dict(
+   text="spec/Components.tla defines ToRun / ToLoad / ToSave / MustError by set comprehension over the dependency graph, the stored "
+        "subset, per-output save policies and the request, and transcribes the check_cache recursion of get_components; TLC checks "
+        "transcription = definition (and PartialSavesNothing, Minimal, OneOrigin) on every request of the scope and prints the "
+        "expected sets; the harness compares them with the real get_components result and with a real run (compute-call counters "
+        "per plugin, storage directory before / after, one saver per writable frontend).",
+   note="Trusted: TLC; stored subsets prepared by copying data made under an all-ALWAYS policy. Scope: chain, multi-output and diamond "
+        "graphs of <=4 types, 9 policy assignments, all stored subsets x targets x save= x 6 modifiers x forbid settings "
+        "(quick tier executes a seeded sample of the enumerated requests, thorough all).",
+   technique="TLA+ definitional oracle + transcription checked by TLC, replay of enumerated requests into the real Context",
+   design="4/C11"),
 }
 NOT_BUILT = "decision procedure (TLA+ module + binding) not built yet in this session; see DESIGN.md section 4 for the plan"
 
